@@ -72,7 +72,10 @@ def canon(o, depth=0):
     if isinstance(o, array.array):
         return "%s[arr(%s,%s);%s]" % (type(o).__name__, o.typecode, canon(list(o), d), canon(getattr(o, "__dict__", {}), d))
     if isinstance(o, dict):
-        items = [(canon(k, d), canon(v, d)) for k, v in o.items()]
+        # `_ps` is the private parent/offspring tag StrategyMultiObjective.generate puts on individuals; it is dead at
+        # generation boundaries (parents are re-tagged at the start of generate, offspring are replaced) and leaks into
+        # archive copies, so it is not part of the compared content
+        items = [(canon(k, d), canon(v, d)) for k, v in o.items() if k != "_ps"]
         # dict order is insertion order and therefore part of what is reproducible
         return "{" + ",".join("%s:%s" % kv for kv in items) + "}"
     if isinstance(o, (list, tuple)):
@@ -383,6 +386,12 @@ class Family(object):
     def attach(self, st):
         pass
 
+    def user_args(self):
+        """objects a user script creates ONCE and hands to the library (initial covariance matrix, centroid, parent,
+        initial population, reference points).  Built without the global generators; the same objects are reused by
+        every run of this process (mode `twice`)."""
+        return {}
+
     def evaluate_invalid(self, pop):
         invalid = [ind for ind in pop if not ind.fitness.valid]
         fits = self.toolbox.map(self.toolbox.evaluate, invalid)
@@ -570,6 +579,84 @@ class NSGA2(Family):
         self.log(st, pop, gen=gen, nevals=n)
 
 
+def np32_individual(icls, n):
+    return icls(numpy.float32(random.uniform(0.0, 1.0)) for _ in range(n))
+
+
+class NSGA2Np32(NSGA2):
+    """NSGA-II (mu+mu) with numpy.ndarray individuals of dtype float32 (non-default dtype: in-place variation and
+    evaluation run in single precision), ParetoFront archive with array_equal."""
+    def setup(self):
+        creator.create("FitnessC17", base.Fitness, weights=(-1.0, -1.0))
+        creator.create("IndividualC17", numpy.ndarray, fitness=creator.FitnessC17)
+        tb = self.toolbox
+        tb.register("individual", np32_individual, creator.IndividualC17, 6)
+        tb.register("population", tools.initRepeat, list, tb.individual)
+        tb.register("evaluate", ev_zdt1)
+        tb.register("mate", tools.cxSimulatedBinaryBounded, low=0.0, up=1.0, eta=20.0)
+        tb.register("mutate", tools.mutPolynomialBounded, low=0.0, up=1.0, eta=20.0, indpb=1.0 / 6)
+        tb.register("select", tools.selNSGA2)
+        self.stats = self.std_stats(axis=0)
+        self.mu = self.params.get("mu", 12)
+
+    def init(self):
+        tb = self.toolbox
+        pop = tb.population(n=self.mu)
+        st = {"population": pop, "generation": 0, "halloffame": tools.ParetoFront(similar=numpy.array_equal),
+              "logbook": self.new_logbook(), "strategy": None}
+        n = self.evaluate_invalid(pop)
+        pop = tb.select(pop, len(pop))
+        st["population"] = pop
+        st["halloffame"].update(pop)
+        self.log(st, pop, gen=0, nevals=n)
+        return st
+
+    def step(self, st, gen):
+        tb = self.toolbox
+        pop = st["population"]
+        off = tools.selTournamentDCD(pop, len(pop))
+        off = [tb.clone(ind) for ind in off]
+        for ind1, ind2 in zip(off[::2], off[1::2]):
+            if random.random() <= 0.9:
+                tb.mate(ind1, ind2)
+            tb.mutate(ind1)
+            tb.mutate(ind2)
+            del ind1.fitness.values, ind2.fitness.values
+        n = self.evaluate_invalid(off)
+        st["halloffame"].update(off)
+        pop = tb.select(pop + off, self.mu)
+        st["population"] = pop
+        self.log(st, pop, gen=gen, nevals=n)
+
+
+def np_int8_individual(icls, n):
+    return icls(numpy.int8(random.randint(0, 1)) for _ in range(n))
+
+
+class GANumpyInt8(GANumpy):
+    """numpy.ndarray bit strings of dtype int8 (examples/ga/onemax_numpy.py with a small integer dtype)."""
+    def setup(self):
+        GANumpy.setup(self)
+        self.toolbox.register("individual", np_int8_individual, creator.IndividualC17, 16)
+        self.toolbox.register("population", tools.initRepeat, list, self.toolbox.individual)
+
+
+class GAArrayF(GAList):
+    """array.array('f') individuals (single precision storage), eaSimple-shaped loop, cxBlend / mutGaussian."""
+    def setup(self):
+        creator.create("FitnessC17", base.Fitness, weights=(-1.0,))
+        creator.create("IndividualC17", array.array, typecode="f", fitness=creator.FitnessC17)
+        tb = self.toolbox
+        tb.register("attr", random.uniform, -2.0, 2.0)
+        tb.register("individual", tools.initRepeat, creator.IndividualC17, tb.attr, 6)
+        tb.register("population", tools.initRepeat, list, tb.individual)
+        tb.register("evaluate", ev_sphere)
+        tb.register("mate", tools.cxBlend, alpha=0.3)
+        tb.register("mutate", tools.mutGaussian, mu=0.0, sigma=0.3, indpb=0.3)
+        tb.register("select", tools.selTournament, tournsize=3)
+        self.stats = self.std_stats()
+
+
 class SPEA2(Family):
     """(mu+lambda) loop with selSPEA2 and a ParetoFront archive."""
     def setup(self):
@@ -625,9 +712,12 @@ class NSGA3(Family):
     def attach(self, st):
         self.toolbox.register("select", st["strategy"])
 
+    def user_args(self):
+        return {"ref_points": tools.uniform_reference_points(3, 3)}
+
     def init(self):
         tb = self.toolbox
-        ref = tools.uniform_reference_points(3, 3)
+        ref = self.args["ref_points"]
         st = {"generation": 0, "halloffame": tools.ParetoFront(), "logbook": self.new_logbook(),
               "strategy": tools.selNSGA3WithMemory(ref, nd=self.params.get("nd", "log"))}
         self.attach(st)
@@ -799,7 +889,19 @@ class CMA(Family):
         self.toolbox.register("generate", st["strategy"].generate, creator.IndividualC17)
         self.toolbox.register("update", st["strategy"].update)
 
+    def user_args(self):
+        u = self.params.get("user")
+        if not u:
+            return {}
+        cen = [3.0] * 5
+        return {"centroid": numpy.array(cen) if u.get("centroid") == "ndarray" else cen,
+                "cmatrix": numpy.diag([1.0, 4.0, 0.25, 2.0, 0.5])}
+
     def make_strategy(self):
+        u = self.params.get("user")
+        if u:
+            return cma.Strategy(centroid=self.args["centroid"], sigma=u.get("sigma", 2.0), lambda_=u.get("lambda_", 12),
+                                cmatrix=self.args["cmatrix"])
         return cma.Strategy(centroid=[5.0] * 5, sigma=5.0, lambda_=10)
 
     def init(self):
@@ -826,7 +928,16 @@ class CMA1PL(CMA):
         CMA.setup(self)
         self.toolbox.register("evaluate", ev_sphere)
 
+    def user_args(self):
+        if not self.params.get("user"):
+            return {}
+        parent = creator.IndividualC17([0.5, -0.25, 0.75, -1.0, 0.125])
+        parent.fitness.values = ev_sphere(parent)
+        return {"parent": parent}
+
     def make_strategy(self):
+        if self.params.get("user"):
+            return cma.StrategyOnePlusLambda(self.args["parent"], sigma=5.0, lambda_=8)
         parent = creator.IndividualC17(numpy.random.rand(5) * 2 - 1)
         parent.fitness.values = self.toolbox.evaluate(parent)
         return cma.StrategyOnePlusLambda(parent, sigma=5.0, lambda_=8)
@@ -846,10 +957,13 @@ class CMAActive(CMA):
         CMA.setup(self)
         self.toolbox.register("evaluate", ev_sphere_constrained)
 
-    def make_strategy(self):
+    def user_args(self):
         parent = creator.IndividualC17([1.5, 2.0, 3.0, 1.0])
         parent.fitness.values = benchmarks.sphere(parent)
-        return cma.StrategyActiveOnePlusLambda(parent, sigma=1.0, steps=[0.0, 0.0, 1.0, 0.0], lambda_=6)
+        return {"parent": parent, "steps": [0.0, 0.0, 1.0, 0.0]}
+
+    def make_strategy(self):
+        return cma.StrategyActiveOnePlusLambda(self.args["parent"], sigma=1.0, steps=self.args["steps"], lambda_=6)
 
     def step(self, st, gen):
         tb = self.toolbox
@@ -879,12 +993,24 @@ class MOCMA(Family):
         self.toolbox.register("generate", st["strategy"].generate, creator.IndividualC17)
         self.toolbox.register("update", st["strategy"].update)
 
+    def user_args(self):
+        if not self.params.get("user"):
+            return {}
+        rs = numpy.random.RandomState(20170)          # private generator: the global ones are not touched
+        pop = [creator.IndividualC17(x) for x in rs.uniform(0, 1, (6, 4))]
+        for ind in pop:
+            ind.fitness.values = ev_zdt1_pen(ind)
+        return {"population": pop}
+
     def init(self):
         mu = 6
         lam = self.params.get("lambda_", 6)
-        pop = [creator.IndividualC17(x) for x in numpy.random.uniform(0, 1, (mu, 4))]
-        for ind in pop:
-            ind.fitness.values = self.toolbox.evaluate(ind)
+        if self.params.get("user"):
+            pop = self.args["population"]
+        else:
+            pop = [creator.IndividualC17(x) for x in numpy.random.uniform(0, 1, (mu, 4))]
+            for ind in pop:
+                ind.fitness.values = self.toolbox.evaluate(ind)
         strategy = cma.StrategyMultiObjective(pop, sigma=1.0, mu=mu, lambda_=lam)
         st = {"population": pop, "generation": 0, "halloffame": tools.ParetoFront(), "logbook": self.new_logbook(),
               "strategy": strategy}
@@ -1346,7 +1472,7 @@ def model_tokens(st, cursor):
     return out
 
 
-FAMILIES = {"ga": GAList, "ga_array": GAArray, "ga_numpy": GANumpy, "nsga2": NSGA2, "spea2": SPEA2, "nsga3": NSGA3,
+FAMILIES = {"ga": GAList, "ga_array": GAArray, "ga_numpy": GANumpy, "nsga2": NSGA2, "nsga2_np32": NSGA2Np32, "ga_np_int8": GANumpyInt8, "ga_array_f": GAArrayF, "spea2": SPEA2, "nsga3": NSGA3,
             "gp": GPSym, "gp_typed": GPTyped, "cma": CMA, "cma1pl": CMA1PL, "cma_active": CMAActive, "mocma": MOCMA, "ealoops": EALoops, "es": ES, "islands": Islands, "ga_ops": GAOps, "modelga": ModelGA}
 
 CKPT_KEYS = ["population", "generation", "halloffame", "logbook", "strategy", "rndstate", "nprndstate"]
@@ -1365,6 +1491,21 @@ def boundary(fam, st):
     return out
 
 
+def args_sha(args):
+    """content fingerprint of the user's argument objects (the private `_ps` tag that StrategyMultiObjective.generate
+    documents putting on its parents is not content)"""
+    def strip(o):
+        if isinstance(o, list) and type(o) is not list and hasattr(o, "__dict__"):
+            d = {k: v for k, v in vars(o).items() if k != "_ps"}
+            return ("ind", type(o).__name__, [strip(x) for x in o], canon(d))
+        if isinstance(o, (list, tuple)):
+            return [strip(x) for x in o]
+        if isinstance(o, dict):
+            return {k: strip(v) for k, v in o.items()}
+        return canon(o)
+    return sha(repr(strip(args)))
+
+
 def perturb_allocations(n):
     """a fresh process need not have the allocation history of the first one"""
     keep = []
@@ -1380,6 +1521,8 @@ def run(spec):
     keep = perturb_allocations(spec.get("perturb", 0))   # noqa: F841
     fam = FAMILIES[spec["family"]](spec)
     fam.setup()
+    fam.args = fam.user_args()
+    out["args_sha"] = [args_sha(fam.args)]
     if spec["family"] == "gp_typed" and spec.get("params", {}).get("variant") == "heap":
         # evidence only: the iteration order of a set of the three type objects in THIS process
         out["type_set_order"] = [t.__name__ for t in set([Angle, Ratio, Flag])]
@@ -1414,6 +1557,20 @@ def run(spec):
             fam.step(st, gen)
             st["generation"] = gen
             out["boundaries"].append(boundary(fam, st))
+        out["args_sha"].append(args_sha(fam.args))
+        if mode == "twice":
+            # the same process, the same toolbox / primitive set / classes and the SAME user argument objects, seeded
+            # identically once more
+            fam.stream_text = None
+            random.seed(spec["seed"])
+            numpy.random.seed(spec["seed"] % (2 ** 32))
+            st = fam.init()
+            out["boundaries_b"] = [boundary(fam, st)]
+            for gen in range(1, ngen + 1):
+                fam.step(st, gen)
+                st["generation"] = gen
+                out["boundaries_b"].append(boundary(fam, st))
+            out["args_sha"].append(args_sha(fam.args))
         if mode == "save":
             out["unsupported_protocols"] = {}
             if isinstance(fam, ModelGA):
